@@ -53,14 +53,20 @@ class ProgramRun(object):
         else:
             self.base_image = D.baseline(start, rows=rows, db=db)
 
-    def execute(self, fault_at=None):
+    def execute(self, fault_at=None, bookkeeping=False):
         from django_evolution import management
         MZ.install(self.final)
         B.restore(self.base_image, self.db)
         B.reset_globals()
         seq = [0]
-        tracer = O.Tracer(self.db, fault_at=fault_at, seq=seq,
-                          match=lambda q: not acceptor.is_bookkeeping(q))
+        if bookkeeping:
+            # fault targets = the statements that save the version and the
+            # evolution rows (C17 only)
+            match = lambda q: ('"django_project_version"' in q or
+                               '"django_evolution"' in q)
+        else:
+            match = lambda q: not acceptor.is_bookkeeping(q)
+        tracer = O.Tracer(self.db, fault_at=fault_at, seq=seq, match=match)
         real = [ML.to_real(mj) for _l, mj in self.steps]
         evos = [{'label': 'e1', 'mutations': real}] if real else []
         lock_before = management._evolve_lock
@@ -155,6 +161,25 @@ def judge_program(pr, stats, add7, add17):
                      pr, k, {'error': str(res2.exc)[:300]})
         elif EB.canonical_state(alias=pr.db) != good:
             add7('C07|retry-result-differs|%s' % where, pr, k, {})
+    if n and not pr.extra and not pr.purge and pr.db == 'default':
+        bookkeeping_faults(pr, stats, add17)
+
+
+def bookkeeping_faults(pr, stats, add17):
+    """Faults at the statements that save the bookkeeping: only the signal
+    acceptor is evaluated (the C07 quantifier stops at the batch)."""
+    run0 = pr.execute(bookkeeping=True)
+    n = len(run0['tracer'].effects())
+    for k in range(1, n + 1):
+        run = pr.execute(fault_at=k, bookkeeping=True)
+        stats['runs'] += 1
+        stats['bookkeeping_faults'] = stats.get('bookkeeping_faults', 0) + 1
+        if run['res'].ok:
+            continue
+        for clause, detail in acceptor.check(
+                run['events'], run['statements'], 'failed',
+                run['lock_before'], run['lock_after'], purge=pr.purge):
+            add17('C17|%s|fault-in-bookkeeping-save' % clause, pr, k, detail)
 
 
 def stmt_shape(sql):
